@@ -671,7 +671,10 @@ fn neutral_check<S: Acc>(ty: &str, opname: &str, r: &S, a: &Slot<S>, b: &Slot<S>
             } else if x.len() > 1 {
                 // within 64 ulp on the mean: a renormalisation moves the underlying sum by <= 2 ulp, which exp / 1/x
                 // of the geometric / harmonic means amplify by at most |ln G| resp. 1
-                ensure!(same_obs(&x[..2], &y[..2], 64), format!("C09/{ty}/empty_not_neutral"), "{opname} with an empty operand moved the mean by more than 64 ulp: {y:?} -> {x:?}");
+                // (derivation: 2 ulp of the sum of logarithms is a relative 2^-51 |ln G| on G, i.e. <= 4 |ln G| ulp of G;
+                // with data scaled as a whole by 2^±45, |ln G| reaches 30 and more)
+                let allowed: u64 = if ty.starts_with("Geometric") && y[1].is_finite() && y[1] > 0.0 { (16.0 + 8.0 * y[1].ln().abs()).max(64.0) as u64 } else { 64 };
+                ensure!(same_obs(&x[..2], &y[..2], allowed), format!("C09/{ty}/empty_not_neutral"), "{opname} with an empty operand moved the mean by more than {allowed} ulp: {y:?} -> {x:?}");
             }
             if o.model.len() >= S::min_query() {
                 let mut scratch = crate::engine::Obs::new(std::sync::Arc::new(crate::engine::Known::default()));
@@ -861,6 +864,70 @@ pub fn tree_case(c: &TreeCase, obs: &mut Obs) -> PResult {
     }
 }
 
+// long folds onto a dominant accumulator --------------------------------------------------------------------
+
+/// One very large observation followed by many merges of small partial states (each far below one unit of rounding
+/// of the accumulated sum): every single merge is invisible, the multiset's statistics are not.
+#[derive(Clone, Debug, Serialize, Deserialize)]
+pub struct FoldCase {
+    pub ty: String,
+    pub head: Item,
+    pub parts: Vec<Vec<Item>>,
+    /// 0: acc = acc + part, 1: acc = part + acc, 2: acc += part, 3: alternating
+    pub order: u8,
+}
+pub fn fold_case(c: &FoldCase, obs: &mut Obs) -> PResult {
+    fn go<S: Acc>(c: &FoldCase, obs: &mut Obs) -> PResult {
+        let fail = |e: String| crate::engine::Fail { sig: "C09/long_fold/op_failed".into(), msg: e };
+        let mut acc = S::from_items(std::slice::from_ref(&c.head)).map_err(fail)?;
+        let mut model = vec![c.head.clone()];
+        for (i, p) in c.parts.iter().enumerate() {
+            let part = S::from_items(p).map_err(fail)?;
+            obs.eval();
+            match if c.order == 3 { (i % 3) as u8 } else { c.order } {
+                0 => acc = S::plus(&acc, &part),
+                1 => acc = S::plus(&part, &acc),
+                _ => acc.plus_assign(&part),
+            }
+            model.extend(p.iter().cloned());
+        }
+        ensure!(acc.count() == model.len(), format!("C09/{}/sample_count", c.ty), "long fold: count {} for {} observations", acc.count(), model.len());
+        for conf in [Conf::new(0, 0.95), Conf::new(2, 0.9)] {
+            acc.check(&model, 2, &conf, 0.4, &c.ty, obs)?;
+        }
+        obs.class(&format!("long_fold/{}", c.ty));
+        obs.nontrivial(&crate::engine::hash_of(&serde_json::to_string(c).unwrap_or_default()));
+        Ok(())
+    }
+    match c.ty.as_str() {
+        "Arithmetic<f64>" => go::<AArith<f64>>(c, obs),
+        "Arithmetic<f32>" => go::<AArith<f32>>(c, obs),
+        "Harmonic<f32>" => go::<AHar<f32>>(c, obs),
+        "Paired<f64>" => go::<APaired<f64>>(c, obs),
+        "Paired<f32>" => go::<APaired<f32>>(c, obs),
+        "Unpaired<f64>" => go::<AUnpaired<f64>>(c, obs),
+        "Unpaired<f32>" => go::<AUnpaired<f32>>(c, obs),
+        t => crate::engine::fail("INFRA/harness_panic", format!("unknown type {t}")),
+    }
+}
+pub fn fold_strategy() -> impl Strategy<Value = FoldCase> {
+    let tys = ["Arithmetic<f64>", "Arithmetic<f32>", "Harmonic<f32>", "Paired<f64>", "Paired<f32>", "Unpaired<f64>", "Unpaired<f32>"];
+    (0usize..tys.len(), 0u8..4, 0i32..6, any::<bool>()).prop_flat_map(move |(t, order, extra, neg)| {
+        let ty = tys[t];
+        let ty_idx = TYPES.iter().position(|x| *x == ty).unwrap();
+        let f32_ = ty.contains("f32");
+        (prop::collection::vec(prop::collection::vec(item(ty_idx), 1..=3), 128..=512), item(ty_idx)).prop_map(move |(parts, h)| {
+            // the head dominates the running sum by 2^26 … 2^31 (f32) / 2^55 … 2^60 (f64); for the harmonic mean it is the
+            // reciprocal that dominates
+            let e = if f32_ { 26 } else { 55 } + extra;
+            let big = crate::fl::pow2(e) * (1.0 + h.x.0.abs() / 64.0).min(1.5) * if neg && !ty.starts_with("Harmonic") { -1.0 } else { 1.0 };
+            let cast = |v: f64| if f32_ { (v as f32) as f64 } else { v };
+            let head = if ty.starts_with("Harmonic") { Item { x: X(cast(1.0 / big)), y: X(cast(1.0 / big)), flag: h.flag } } else { Item { x: X(cast(big)), y: X(0.0), flag: h.flag } };
+            FoldCase { ty: ty.to_string(), head, parts, order }
+        })
+    })
+}
+
 // parallel reduce ------------------------------------------------------------------------------------------
 
 #[derive(Clone, Debug, Serialize, Deserialize)]
@@ -916,7 +983,7 @@ pub fn par_case(c: &ParCase, obs: &mut Obs) -> PResult {
 
 pub fn run(run: &mut Run) {
     run.technique = "model-based (stateful) property testing: proptest-generated programs over a register file interpreted on the real types and on a multiset model with exact statistics; exhaustive enumeration of all binary merge trees over <= 6 chunks; real rayon / thread reductions".into();
-    run.rule = "programs of up to 40 ops (data at unit scale or scaled as a whole by a power of two down to 2^-45 / up to 2^45) over {New, Append, Extend, FromIter, Copy, Add, AddAssign, Query} on 4 slots for 12 state types; after every step the count equals the model's, at every query mean / variance / CI are within the rounding tolerance of the exact statistics of the model multiset (proportion / quantile states: equal to the component-wise sums, ci bit-identical), queries leave every Debug image unchanged and repeat identically, an empty operand is neutral; all 65 merge-tree shapes over 1..6 chunks x 3 chunkings (with empty chunks) x both operand orders; rayon and thread-scope reductions with 1, 2, 7, 16 threads; non-trivial = a program with a merge of two multi-element states, a merge with an empty operand, or a query between updates".into();
+    run.rule = "programs of up to 40 ops (data at unit scale or scaled as a whole by a power of two down to 2^-45 / up to 2^45) over {New, Append, Extend, FromIter, Copy, Add, AddAssign, Query} on 4 slots for 12 state types; after every step the count equals the model's, at every query mean / variance / CI are within the rounding tolerance of the exact statistics of the model multiset (proportion / quantile states: equal to the component-wise sums, ci bit-identical), queries leave every Debug image unchanged and repeat identically, an empty operand is neutral; all 65 merge-tree shapes over 1..6 chunks x 3 chunkings (with empty chunks) x both operand orders; folds of 128…512 small partial states onto an accumulator holding one observation 2^26…2^31 (f64: 2^55…2^60) times larger, in four operand orders; rayon and thread-scope reductions with 1, 2, 7, 16 threads; non-trivial = a program with a merge of two multi-element states, a merge with an empty operand, or a query between updates".into();
     crate::meanref::selftest_into(run);
     let (cases, shards, max_ops) = match run.tier {
         crate::engine::Tier::Quick => (30_000u32, 32usize, 40usize),
@@ -980,6 +1047,16 @@ pub fn run(run: &mut Run) {
         crate::engine::case_on(obs, "tree", &jobs_ref[j], tree_case);
     });
     run.exhaustive_parts.push("all binary merge-tree shapes over 1..6 chunks (1+1+2+5+14+42 = 65) x 3 chunkings x 2 operand orders x 10 state types (floating-point types at unit scale, at 2^-34 / 2^-14, and on the alternating integers 1, -1, 2, -2, … whose chunk sums cancel exactly)".into());
+    // long folds onto a dominant accumulator
+    {
+        let cases = run.tier.pick(1_500u32, 60_000);
+        let seed = run.seed_for("long_fold", 0);
+        run.par(16, |shard, obs| {
+            crate::engine::prop_on(obs, "long_fold", cases / 16, crate::engine::mix(seed, "shard", shard as u64), fold_strategy(), fold_case);
+        });
+        run.require_class("long_fold/Arithmetic<f32>");
+        run.require_class("long_fold/Unpaired<f64>");
+    }
     // parallel reductions
     let n_par = run.tier.pick(20_000usize, 300_000);
     let mut pj = vec![];
@@ -1007,6 +1084,7 @@ pub fn run(run: &mut Run) {
 pub fn replay(sub: &str, v: &Value, obs: &mut Obs) -> Option<PResult> {
     Some(match sub {
         "program" => program_case(&de(v), obs),
+        "long_fold" => fold_case(&de(v), obs),
         "tree" => tree_case(&de(v), obs),
         "parallel" => par_case(&de(v), obs),
         _ => return None,
